@@ -131,6 +131,18 @@ def dquantCases : List String :=
                                          deblock := false, quant := q0 + 1, extra := [] }, mbs := [mb] }
     s!"P 1 d:{hexOf p}"
 
+/-- DQUANT chains: three INTRA+Q macroblocks in a row, every sequence of three DQUANT values from picture quantizers at both
+ends of the range — the quantizer carried from macroblock to macroblock is the CLAMPED one (saturate, then come back) -/
+def dquantChainCases : List String :=
+  [1, 2, 3, 4, 28, 29, 30, 31].flatMap fun q0 => [(-2 : Int), -1, 1, 2].flatMap fun d1 => [(-2 : Int), -1, 1, 2].flatMap fun d2 =>
+    [(-2 : Int), -1, 1, 2].map fun d3 =>
+      let blk : BlockD := { dc := some 100, events := [{ run := 0, level := 5, form := .esc7 }, { run := 3, level := -9, form := .esc7 }] }
+      let blank : BlockD := { dc := some 64, events := [] }
+      let mb (dq : Int) : MbD := { stuffing := 0, kind := .coded .intraQ dq (0, 0) ((0, 0), (0, 0), (0, 0)) [blk, blank, blank, blk, blank, blk] }
+      let p : PicD := { hdr := .sorenson { version := 1, tr := q0, sizeCode := 0, customW := 48, customH := 16, picType := 0,
+                                           deblock := false, quant := q0, extra := [] }, mbs := [mb d1, mb d2, mb d3] }
+      s!"P 1 d:{hexOf p}"
+
 /-- Annex A coefficient blocks of range index `k` (0..5: (256,255), (5,5), (300,300) and their negations), generator seed
 `seed`: for every block two T lines (prediction 0 and 255, so that the signed residual is observable) -/
 def annexACases (k seed count : Nat) : List String := Id.run do
@@ -201,6 +213,25 @@ def edgeSizeCases (pp : Bool) (count : Nat) : G (List String) := do
       let mbs := List.replicate total mb
       let p : PicD := { hdr := .sorenson hdr, mbs := mbs }
       out := (if pp then s!"PP 1 {hexOf p}" else s!"P 1 d:{hexOf p}") :: out
+  pure out.reverse
+
+/-- a picture whose width or height lies at the top of the 16-bit range followed by a small picture in the same reader, and
+(second line) one reader each: the macroblock count of such sizes (4096 per line / column) decides where the first picture ends -/
+def edgeConcatCases (count : Nat) : G (List String) := do
+  let mut out : List String := []
+  let sizes : List (Nat × Nat) := [(65528, 16), (16, 65535), (65521, 2), (65535, 1), (2, 65529), (65520, 16)]
+  for (w, h) in sizes.take (if count = 0 then sizes.length else count) do
+    let q ← range 1 31
+    let hdr : SorensonHdr := { version := 1, tr := w % 256, sizeCode := 1, customW := w, customH := h, picType := 0,
+                               deblock := false, quant := q, extra := [] }
+    let total := ((w + 15) / 16) * ((h + 15) / 16)
+    let dcv ← range 1 254
+    let dcv := if dcv = 128 then 129 else dcv
+    let blk : BlockD := { dc := some dcv }
+    let mb : MbD := { stuffing := 0, kind := .coded .intra 0 (0, 0) ((0, 0), (0, 0), (0, 0)) [blk, blk, blk, blk, blk, blk] }
+    let big : PicD := { hdr := .sorenson hdr, mbs := List.replicate total mb }
+    let small ← genPic { flavour := 1 } 0 (16, 16) 9 true
+    out := s!"P 1 r:{hexOf big};r:{hexOf small}" :: s!"P 1 a:{hexOf big}{hexOf small};n;n" :: out
   pure out.reverse
 
 /-- hand-built stress streams for C01: zero sizes, 11-bit levels at high quantizers, more macroblock data than the picture
@@ -355,11 +386,12 @@ def runGen (kind : String) (seed count : Nat) : List String :=
   if kind == "stress" then (stressCases.run (seed * 2654435761 + 7)).1 else
   if kind == "esclevels" then escLevelCases else
   if kind == "bigconcat" then ((bigConcatCases count).run (seed * 2654435761 + 77)).1 else
+  if kind == "edgeconcat" then ((edgeConcatCases count).run (seed * 2654435761 + 32)).1 else
   if kind == "edgesizes" then ((edgeSizeCases false count).run (seed * 2654435761 + 31)).1 else
   if kind == "edgesizespp" then ((edgeSizeCases true count).run (seed * 2654435761 + 31)).1 else
   if kind == "sizes" then ((sizeCases count count).run (seed * 2654435761 + 99)).1 else
   if kind.startsWith "annexa" then annexACases (kind.drop 6).toString.toNat! seed count else
-  if kind == "dquant" then dquantCases else
+  if kind == "dquant" then dquantCases ++ dquantChainCases else
   let g : G (List String) := do
     let mut out : List String := []
     for _ in [0:count] do
